@@ -100,11 +100,16 @@ def signature(d, taken):
     if e[0] == "call" and tr is not None:
         nm = e[1].split("::")[-1]
         args = ",".join(role(a) for a in e[2])
+        if nm == "is_some" and "Option" in e[1]:
+            nm, tr = "is_none", not tr            # one canonical spelling for Option tests
         return "%s%s(%s)" % ("" if tr else "!", nm, args)
     if e[0] in ("load", "arg", "var") and tr is not None:
         return "%s%s" % ("" if tr else "!", role(e))
     if e[0] == "discr":
         v = taken[1] if taken[0] == "eq" else "!" + ",".join(taken[1])
+        ty = e[1][2] if (e[1][0] in ("load", "refplace") and len(e[1]) > 2) else ""
+        if str(ty).startswith("std::option::Option<") and v in ("0", "!1", "1", "!0"):
+            return "%sis_none(%s)" % ("" if v in ("0", "!1") else "!", role(e[1]))
         return "variant(%s)=%s" % (role(e[1]), v)
     return "?(%s)" % sym.show(e)[:60]
 
@@ -153,7 +158,7 @@ TABLE = {
         "NegativeAudioPts": ["param:pts < const:0"],
         "EmptyAudioFrame": ["is_empty(param:data)"],
         "DecreasingAudioPts": ["param:pts < state:last_audio_pts"],
-        "AudioBeforeFirstVideo": ["param:pts < state:first_video_pts", "variant(state:first_video_pts)=!1"],
+        "AudioBeforeFirstVideo": ["param:pts < state:first_video_pts", "is_none(state:first_video_pts)"],
     },
     # "non-empty data" applies to the convenience form too; it is checked before the keyframe helper reads the bytes
     M + "encode_video": {"EmptyVideoFrame": ["is_empty(param:data)"]},
